@@ -226,15 +226,15 @@ def smt_custom(oid, function, clause, body, kind='required', budget=120, tiers=(
       ti = time.time() - t0
       r = smt_prove(A, pre, goal, timeout_s=timeout, seed=seed())
       r.stats['interp_s'] = round(ti, 3)
-      if r.verdict == REFUTED:
-        if rep is not None:
-          try:
-            r.replay = rep(r.witness)
-          except Exception as e:      # noqa: BLE001
-            r.replay = {'reproduced': False, 'error': '%s: %s' % (type(e).__name__, e)}
-        else:
-          r.replay = {'reproduced': False}
-      return r
+    if r.verdict == REFUTED:          # native replay with the cuts removed
+      if rep is not None:
+        try:
+          r.replay = rep(r.witness)
+        except Exception as e:      # noqa: BLE001
+          r.replay = {'reproduced': False, 'error': '%s: %s' % (type(e).__name__, e)}
+      else:
+        r.replay = {'reproduced': False}
+    return r
   return Obligation(oid, function, clause, run, backend=backend, kind=kind, budget=budget, tiers=tiers, assumes=tuple(assumes))
 
 
